@@ -113,6 +113,42 @@ theorem specRunWith_summary (cfg : Cfg) (ram : Nat) (ops : List (List Seg)) (tic
       simp only [List.length_map, hk] at hi
       exact hget i hi
 
+theorem relabel_getD_fst (L : Nat) (D : List (Nat × Nat)) (i : Nat) (hi : i < D.length) :
+    ((D.map (fun x => (L - 1 - x.1, x.2))).getD i (0, 0)).1 = L - 1 - (D.getD i (0, 0)).1 := by
+  induction D generalizing i with
+  | nil => simp at hi
+  | cons a D ih =>
+    cases i with
+    | zero => simp
+    | succ i => simpa using ih i (by simpa using hi)
+
+/-- the operators the specification counts as completed when the run ends: all of them after a success, otherwise the operator of the first demand
+that does not fit -/
+theorem specRunWith_completedOps (cfg : Cfg) (ram : Nat) (ops : List (List Seg)) (ticks : List (List (Nat × Nat))) (D : List (Nat × Nat))
+    (hD : D.map (fun x => (ops.length - 1 - x.1, x.2)) = ctrDemands cfg ops ticks) :
+    let S := specRunWith cfg ram ops ticks
+    let k := (D.takeWhile (fun x => decide (x.2 ≤ ram))).length
+    (k = D.length → S.completedOps = ops.length) ∧ (k < D.length → S.completedOps = ops.length - 1 - (D.getD k (0, 0)).1) := by
+  intro S k
+  have hk : ((ctrDemands cfg ops ticks).takeWhile (fun x => decide (x.2 ≤ ram))).length = k := by
+    rw [← hD]; exact relabel_takeWhile _ _ _
+  have hlen : (ctrDemands cfg ops ticks).length = D.length := by rw [← hD]; simp
+  constructor
+  · intro hall
+    have hb : ((((ctrDemands cfg ops ticks).takeWhile (fun x => decide (x.2 ≤ ram))).length) == (ctrDemands cfg ops ticks).length) = true := by
+      rw [hk, hlen]; simpa using hall
+    simp only [S, specRunWith]
+    rw [hb]
+    simp
+  · intro hlt
+    have hb : ((((ctrDemands cfg ops ticks).takeWhile (fun x => decide (x.2 ≤ ram))).length) == (ctrDemands cfg ops ticks).length) = false := by
+      rw [hk, hlen]; simp; omega
+    simp only [S, specRunWith]
+    rw [hb]
+    simp only [Bool.false_eq_true, ↓reduceIte, hk]
+    rw [← hD]
+    exact relabel_getD_fst _ _ _ hlt
+
 /-- `n + 1` ticks are `n` ticks and one more -/
 theorem runN_snoc (cfg : Cfg) : ∀ (n : Nat) (w : Store) (c : Ctr) (cons : Int),
     runN cfg (n + 1) w c cons = (match runN cfg n w c cons with
